@@ -627,6 +627,8 @@ def _decode_file(data):
             s.lr_type = r.type
             s.rec_index = ri
             f.errors.extend(s.errors)
+            if s.type in SET_LR_TYPE and SET_LR_TYPE[s.type] != r.type:
+                f.errors.append(Err('eflr.record_type_vs_set', set=s.type, type=r.type, want=SET_LR_TYPE[s.type], rec=ri))
             if s.type == 'FILE-HEADER' or lf is None:
                 if s.type != 'FILE-HEADER':
                     f.errors.append(Err('file.no_header_first', first=s.type))
@@ -698,6 +700,13 @@ def _decode_file(data):
                 f.errors.append(Err('iflr.unknown_type', type=r.type, rec=ri))
                 lf.records.append(('iflr?', {'rec': ri}))
     return f
+
+
+# RP66 V1 Appendix A: the logical record type (segment header) under which each set type is written
+SET_LR_TYPE = {'FILE-HEADER': 0, 'ORIGIN': 1, 'WELL-REFERENCE': 1, 'AXIS': 2, 'CHANNEL': 3, 'FRAME': 4, 'PATH': 4,
+               'CALIBRATION': 5, 'CALIBRATION-COEFFICIENT': 5, 'CALIBRATION-MEASUREMENT': 5, 'COMPUTATION': 5, 'EQUIPMENT': 5,
+               'GROUP': 5, 'PARAMETER': 5, 'PROCESS': 5, 'SPLICE': 5, 'TOOL': 5, 'ZONE': 5, 'COMMENT': 6, 'MESSAGE': 6,
+               'UPDATE': 7, 'NO-FORMAT': 8, 'LONG-NAME': 9}
 
 
 def summarize(f):
